@@ -287,6 +287,9 @@ def check_1d(chk, drv, sp, rng, nrand):
         # the in-place entry point must fill the array it is given, also when that is a strided view (a column of a table)
         out = np.full(len(xs), np.nan) if der == 0 else np.full((len(xs), 3), np.nan)[:, 1]
         ok_v = guarded(chk, 'Spline1D.eval_vector', case0, lambda: (s.eval_vector(xs.copy(), out, der), True)[1])
+        # in place in the strict sense: the output array IS the array of points
+        alias = xs.copy()
+        ok_al = guarded(chk, 'Spline1D.eval_vector(x, x)', case0, lambda: (s.eval_vector(alias, alias, der), True)[1])
         mo = drv.call(sp.req1d(c, xs, der))
         M = sp.ref_matrix(xs, der)
         ref = M @ c
@@ -296,7 +299,7 @@ def check_1d(chk, drv, sp, rng, nrand):
                 chk.count('skipped: slope of a degree-1 spline next to a breakpoint')
                 continue
             for entry, vals in (('Spline1D.eval(scalar)', ys_s), ('Spline1D.eval(array)', ys_a),
-                                ('Spline1D.eval_vector', out if ok_v else None)):
+                                ('Spline1D.eval_vector', out if ok_v else None), ('Spline1D.eval_vector(x, x)', alias if ok_al else None)):
                 if vals is None:
                     continue
                 case = dict(case0, entry=entry, x=float(x), x_hex=hx(x))
@@ -615,6 +618,27 @@ def check_2d(chk, drv, s1, s2, rng, npts):
                              sample={'space1': s1.desc(), 'space2': s2.desc(), 'x': float(x), 'y': float(y), 'der': [d1, d2],
                                      'impl': float(Zc[i, j]) if Zc is not None else None, 'model': float(Fr(mc['zs'][i][j]))}
                              if (i, j, d1, d2) == (1, 2, 1, 1) else None)
+            # point orders that re-visit cells: the second-direction points start and end in the same cell (a cut at one x2, a
+            # zoom inside one cell, a sequence that returns to where it started) while the first-direction points cross cells
+            # back and forth; the tensor-grid entry points may not carry anything over from one row / cell to the next
+            Xp = np.array(list(X) + list(X[::-1][:2]))
+            for tag, Yp in (('returns', np.array(list(Y) + [Y[0]])), ('single', np.array([Y[len(Y) // 2]])),
+                            ('one-cell', np.array([Y[0], Y[0], Y[0]]))):
+                Rp = s1.ref_matrix(Xp, d1) @ C @ s2.ref_matrix(Yp, d2).T
+                Zp = guarded(chk, 'Spline2D.eval(cross)', dict(case0, order=tag), lambda: S.eval(Xp.copy(), Yp.copy(), d1, d2))
+                Zq = np.full((len(Xp), len(Yp)), np.nan)
+                okq = guarded(chk, 'Spline2D.eval_vector', dict(case0, order=tag), lambda: (S.eval_vector(Xp.copy(), Yp.copy(), Zq, d1, d2), True)[1])
+                for entry, Z in (('Spline2D.eval(cross)', Zp), ('Spline2D.eval_vector', Zq if okq else None)):
+                    if Z is None:
+                        continue
+                    for i, x in enumerate(Xp):
+                        for j, y in enumerate(Yp):
+                            if skip(x, y):
+                                continue
+                            cmp_oracle(chk, 'C07:' + entry, entry + ' differs from the tensor-product B-spline (point order: %s)' % tag,
+                                       dict(case0, entry=entry, order=tag, xs_hex=hxs(Xp), ys_hex=hxs(Yp), x=float(x), y=float(y)),
+                                       float(np.asarray(Z)[i, j]), Rp[i, j], osc)
+                chk.count('2-D re-visiting point orders')
             if okz:
                 for k in range(nz):
                     if skip(Xz[k], Yz[k]):
